@@ -38,6 +38,8 @@ def abstract(constraints):
         s = z3.Real(f"sq!abs{k}")
         subs.append((t, s))
         extra.append(s >= 0)
+        base = t.children()[0]
+        extra.append((s == 0) == (base == 0))       # a square vanishes exactly when its base does
     out = [z3.substitute(c, *subs) for c in constraints]
     return out + extra, len(subs)
 
